@@ -9,41 +9,11 @@
     executable-document grammar does not use) is mapped to [TPipe], which no production tests for
     either. *)
 From Coq Require Import List NArith ZArith Bool Lia.
-From ApiFu Require Import Base.Sexp Lex.LexModel Lex.LexProgress.
+From ApiFu Require Import Base.Sexp Lex.LexModel Lex.LexProgress Cplx.TokenClass.
 From ApiFu Require Cplx.ParserDepthModel Cplx.ComplexitySpec Cplx.ParserDepthProofs.
 Import ListNotations.
 Open Scope Z_scope.
 
-Module P := Cplx.ParserDepthModel.
-
-Definition kw_fragment : bytes := [102; 114; 97; 103; 109; 101; 110; 116]%N.
-Definition kw_on : bytes := [111; 110]%N.
-Definition kw_query : bytes := [113; 117; 101; 114; 121]%N.
-Definition kw_mutation : bytes := [109; 117; 116; 97; 116; 105; 111; 110]%N.
-Definition kw_subscription : bytes := [115; 117; 98; 115; 99; 114; 105; 112; 116; 105; 111; 110]%N.
-
-Definition punct_class (lit : bytes) : P.tok :=
-  match lit with
-  | [33] => P.TBang | [36] => P.TDollar | [40] => P.TLParen | [41] => P.TRParen | [58] => P.TColon
-  | [61] => P.TEq | [64] => P.TAt | [91] => P.TLBrack | [93] => P.TRBrack | [123] => P.TLBrace
-  | [124] => P.TPipe | [125] => P.TRBrace | [46; 46; 46] => P.TEllipsis
-  | _ => P.TPipe
-  end%N.
-
-Definition tok_class (t : token) : P.tok :=
-  match t_kind t with
-  | NAME =>
-      if bytes_eqb (t_value t) kw_fragment then P.TFragment
-      else if bytes_eqb (t_value t) kw_on then P.TOn
-      else if bytes_eqb (t_value t) kw_query || bytes_eqb (t_value t) kw_mutation
-              || bytes_eqb (t_value t) kw_subscription then P.TOpType
-      else P.TName
-  | INT_VALUE => P.TInt
-  | FLOAT_VALUE => P.TFloat
-  | STRING_VALUE => P.TString
-  | PUNCTUATOR => punct_class (t_value t)
-  | _ => P.TPipe
-  end.
 
 Lemma extents_count bs : forall ts from, 0 <= from -> extents_ok bs from ts ->
   from + Z.of_nat (length ts) <= Z.of_nat (length bs).
@@ -57,18 +27,18 @@ Theorem parse_from_bytes_linear : forall bs : bytes,
   exists ts es,
     lex false bs = Done ts es
     /\ (length ts <= length bs)%nat
-    /\ match P.parse P.go_cfg (map tok_class ts) with
-       | P.Ok s' | P.Err _ s' => P.steps s' <= 8 * Z.of_nat (length bs) + 6
-       | P.OutOfFuel => False
+    /\ match ParserDepthModel.parse ParserDepthModel.go_cfg (map tok_class ts) with
+       | ParserDepthModel.Ok s' | ParserDepthModel.Err _ s' => ParserDepthModel.steps s' <= 8 * Z.of_nat (length bs) + 6
+       | ParserDepthModel.OutOfFuel => False
        end
-    /\ (forall s', P.parse P.go_cfg (map tok_class ts) = P.Err P.DepthErr s' ->
+    /\ (forall s', ParserDepthModel.parse ParserDepthModel.go_cfg (map tok_class ts) = ParserDepthModel.Err ParserDepthModel.DepthErr s' ->
                    1000 < 6 + 4 * ComplexitySpec.maxnest (map tok_class ts)).
 Proof.
   intros bs. destruct (lex_progress false bs) as (ts & es & H & X).
   exists ts, es. split; [exact H|].
   pose proof (extents_count bs ts 0 ltac:(lia) X) as Hc.
   split; [lia|]. split.
-  - pose proof (ParserDepthProofs.parse_steps_linear P.go_cfg eq_refl (map tok_class ts)) as Hs.
-    rewrite map_length in Hs. destruct (P.parse P.go_cfg (map tok_class ts)); [lia|lia|exact Hs].
+  - pose proof (ParserDepthProofs.parse_steps_linear ParserDepthModel.go_cfg eq_refl (map tok_class ts)) as Hs.
+    rewrite map_length in Hs. destruct (ParserDepthModel.parse ParserDepthModel.go_cfg (map tok_class ts)); [lia|lia|exact Hs].
   - exact (proj1 (ParserDepthProofs.depth_limit_iff (map tok_class ts))).
 Qed.
